@@ -136,6 +136,18 @@ o P3 240107#KG beta common
 {H4R} Deeper
 
 x P3 240108#KH deepest done
+
+{H1R} Sprint
+
+- 240111#KL sprint note with context @c1
+o P1 240111#KM sprint todo without context
+- 240111#KN sprint note plain
+x 240112#KR sprint done @c2
+
+{H1R} Sprint 2
+
+- 240113#KP sprint two note
+o P0 240113#KQ sprint two todo @c1
 """,
     "big/x.zo": """# X in big dir #t1
 
